@@ -20,17 +20,19 @@ def run(ctx):
     tb, nb = h1common.run_h1srv(ctx, drv, cases, b, modes="streaming", idle="inloop" if ctx.quick else "inloop,poller", cuts="bounds",
                                 extra=["-gate", "off"])
     # the same scripts with a body-size limit below most bodies (streaming does not reject them: the prefetch path differs)
-    limited = os.path.join(ctx.scratch, "stream_limited.ndjson")
-    with open(cases) as f, open(limited, "w") as g:
-        for i, line in enumerate(f):
-            if ctx.quick and i % 3:
-                continue
-            c = json.loads(line)
-            c["fault"] = {"truncate": 0, "wfail": 0, "maxBody": 64, "stall": False}
-            g.write(json.dumps(c) + "\n")
-    tl_, nl_ = h1common.run_h1srv(ctx, drv, limited, ctx.sub("traces_limited"), modes="streaming", idle="inloop", cuts="whole,rand1x6", extra=["-gate", "both", "-maxwire", "300"])
-    tb = tb + tl_
-    nb += nl_
+    # (limit 64: the big bodies exceed it; limit 4: the small ones do, with the next request in the same read)
+    for lim in (64, 4):
+        limited = os.path.join(ctx.scratch, "stream_limited%d.ndjson" % lim)
+        with open(cases) as f, open(limited, "w") as g:
+            for i, line in enumerate(f):
+                if ctx.quick and i % 3:
+                    continue
+                c = json.loads(line)
+                c["fault"] = {"truncate": 0, "wfail": 0, "maxBody": lim, "stall": False}
+                g.write(json.dumps(c) + "\n")
+        tl_, nl_ = h1common.run_h1srv(ctx, drv, limited, ctx.sub("traces_limited%d" % lim), modes="streaming", idle="inloop", cuts="whole,rand1x6", extra=["-gate", "both", "-maxwire", "300"])
+        tb = tb + tl_
+        nb += nl_
     # real transports over loopback TCP
     tn = []
     nn = 0
